@@ -14,6 +14,7 @@ import Mappy.Model.Comments
 import Mappy.Model.Schema
 import Mappy.Gen.Patterns
 import Mappy.Model.Cli
+import Mappy.Model.Retype
 open Lean Mappy Mappy.Wire
 
 namespace Mappy.Driver
@@ -303,6 +304,9 @@ def handle (op : String) (req : Json) : Except String Json := do
   | "assign" => assignOp req
   | "errs" => errsOp req
   | "cli" => cliOp req
+  | "retype" => do
+    let prev := match req.getObjVal? "prev" with | .ok (.str s) => some (s2l s) | _ => none
+    pure (Json.str (l2s (Retype.retype prev (← getStr req "type") (← getStr req "text"))))
   | "lowercase" => pure (ofJ (Validator.convertLowercase (← getJ req "v")))
   | "lower" => pure (Json.str (l2s (lower (← getStr req "s"))))
   | _ => throw s!"unknown op {op}"
